@@ -302,6 +302,14 @@ Proof.
     congruence.
 Qed.
 
+(* the flag only matters for VAAs that name another set than the current one *)
+Theorem ral_source_flag_irrelevant s data r gov gov' :
+  ral_parse data = Some r -> rv_gsidx r = gs_cur_idx s ->
+  ral_source keccak ecrecover s gov data = ral_source keccak ecrecover s gov' data.
+Proof.
+  intros Hp Hi. rewrite !ral_source_eq. unfold ral_accepts. rewrite Hp, Hi, Z.eqb_refl. cbn [negb]. rewrite !andb_false_r. reflexivity.
+Qed.
+
 (* on the bytes the node's Marshal produces: the translated function hashes the node's signing body (the recovery oracle is consulted
    over the node's digest), reads the signature records the node wrote, and hands back the node's own field values *)
 Theorem ral_source_on_marshal s gov v : wf v ->
